@@ -151,4 +151,55 @@ theorem C11_udp_spoof (lower : Bytes → Bytes) (v6 : Bool) (f : AnnFields) (hf 
   · simp [hne]
   · simp [hsrc]
 
+/-- **D24, the consequence**: whatever non-zero packet field is used as the peer's address, what
+`SanitizeAnnounce` makes of it is never the unspecified address (`0.0.0.0` as 4 bytes, `::` as 16):
+the zero test knows every form that folds to it, including `::ffff:0.0.0.0`. -/
+theorem C11_udp_field_never_unspecified (r r' : AnnReq) (mx df : Nat) (hz : allZero r.peer.ip = false)
+    (h : Sanitize.announce r mx df = .ok r') :
+    r'.peer.ip ≠ [0, 0, 0, 0] ∧ r'.peer.ip ≠ List.replicate 16 0 := by
+  unfold Sanitize.announce at h
+  split at h
+  · cases h
+  · simp only at h
+    cases h4 : Sanitize.to4 r.peer.ip with
+    | some ip4 =>
+      rw [h4] at h
+      simp only [Except.ok.injEq] at h
+      subst h
+      simp only
+      unfold Sanitize.to4 at h4
+      split at h4
+      · rename_i hl
+        cases h4
+        constructor
+        · intro e; rw [e] at hz; revert hz; decide
+        · intro e; rw [e] at hl; revert hl; decide
+      · split at h4
+        · rename_i hm
+          cases h4
+          obtain ⟨hl, h10, h2⟩ := hm
+          constructor
+          · intro e
+            have hd : r.peer.ip.drop 10 = (r.peer.ip.drop 10).take 2 ++ (r.peer.ip.drop 10).drop 2 := (List.take_append_drop 2 _).symm
+            have : r.peer.ip = List.replicate 10 0 ++ [255, 255, 0, 0, 0, 0] := by
+              rw [← List.take_append_drop 10 r.peer.ip, h10, hd, h2, List.drop_drop]
+              simp [e]
+            rw [this] at hz; revert hz; decide
+          · intro e
+            have : (r.peer.ip.drop 12).length = 4 := by simp [hl]
+            rw [e] at this; revert this; decide
+        · cases h4
+    | none =>
+      rw [h4] at h
+      simp only at h
+      split at h
+      · rename_i hl
+        simp only [Except.ok.injEq] at h
+        subst h
+        simp only
+        constructor
+        · intro e; rw [e] at hl; revert hl; decide
+        · intro e; rw [e] at hz; revert hz; decide
+      · cases h
+
 end Udp
